@@ -295,7 +295,7 @@ func init() {
 			max := 6 + h.rng.Intn(6)
 			k := 1 + h.rng.Intn(2)
 			target := k + 1 + h.rng.Intn(max-k-2)
-			n0 := max // the buffer is full; the next Put pushes it over max
+			n0 := max                // the buffer is full; the next Put pushes it over max
 			shift := n0 + k - target // what the forced trim removes
 			if shift < 1 || shift >= n0 {
 				continue
